@@ -29,7 +29,7 @@ Lemma mgr0_inv : minv mgr0.
 Proof.
   constructor; cbn.
   - constructor.
-  - intro p. unfold wld, get_calc. cbn. destruct (0 =? p); apply world0_calc_inv.
+  - intro p. unfold wld, get_calc. cbn. destruct p; apply world0_calc_inv.
   - intros; discriminate.
   - reflexivity.
   - reflexivity.
@@ -59,20 +59,19 @@ Qed.
 Lemma kids_dead st k p : afind k (g_quotas st) = None -> ~ In k (map fst (kids p (g_quotas st))).
 Proof. intros Hf Hin. apply kids_keys_incl in Hin. apply afind_None in Hf. exact (Hf Hin). Qed.
 
-(* ---------- one quota's record is replaced and its parent's calculator told ---------- *)
-Lemma push_inv st k mq mq' push :
+(* ---------- one quota's record is replaced (same parent), its parent's calculator becomes C ---------- *)
+Lemma replace_inv st st' k mq mq' C :
   minv st -> afind k (g_quotas st) = Some mq -> m_parent mq' = m_parent mq ->
-  calc_inv (mkW (push (get_calc (m_parent mq) st))
-                (tab_upd k (fun _ => m_info mq') (kids (m_parent mq) (g_quotas st)))) ->
-  (forall c, c_total (push c) = c_total c) ->
-  minv (upd_calc (m_parent mq) push (set_quota k mq' st)).
+  g_quotas st' = repl k mq' (g_quotas st) -> g_total st' = g_total st ->
+  (forall p, get_calc p st' = if m_parent mq =? p then C else get_calc p st) ->
+  calc_inv (mkW C (tab_upd k (fun _ => m_info mq') (kids (m_parent mq) (g_quotas st)))) ->
+  c_total C = c_total (get_calc (m_parent mq) st) ->
+  minv st'.
 Proof.
-  intros Hi Hf Hpar Hw Htot.
-  assert (Hq : g_quotas (upd_calc (m_parent mq) push (set_quota k mq' st)) = repl k mq' (g_quotas st)).
-  { cbn. apply (aset_live k mq' mq), Hf. }
+  intros Hi Hf Hpar Hq Hto Hc Hw Htot.
   constructor.
   - rewrite Hq, repl_keys. apply (mi_nodup st Hi).
-  - intro p. unfold wld. rewrite Hq, get_calc_upd, get_calc_set_quota.
+  - intro p. unfold wld. rewrite Hq, Hc.
     rewrite kids_repl by (intros e He Hk; rewrite (live_unique st k mq e Hi Hf He Hk); congruence).
     destruct (m_parent mq =? p) eqn:E.
     + apply Z.eqb_eq in E. subst p. exact Hw.
@@ -89,9 +88,55 @@ Proof.
     + destruct (mi_parents st Hi k' mq0 H0) as [Hn Hp]. split; [exact Hn|].
       destruct Hp as [Hp|Hp]; [left; exact Hp|right; apply Hlive, Hp].
   - rewrite Hq, afind_repl, (mi_noroot st Hi). destruct (k =? 0); reflexivity.
-  - rewrite get_calc_upd, get_calc_set_quota. cbn [g_total upd_calc set_calc set_quota].
-    destruct (m_parent mq =? 0) eqn:E; [|apply (mi_root_total st Hi)].
-    apply Z.eqb_eq in E. rewrite Htot, <- E. rewrite E. apply (mi_root_total st Hi).
+  - rewrite Hc, Hto. destruct (m_parent mq =? 0) eqn:E; [|apply (mi_root_total st Hi)].
+    apply Z.eqb_eq in E. rewrite Htot, E. apply (mi_root_total st Hi).
+Qed.
+
+Lemma push_inv st k mq mq' push :
+  minv st -> afind k (g_quotas st) = Some mq -> m_parent mq' = m_parent mq ->
+  calc_inv (mkW (push (get_calc (m_parent mq) st))
+                (tab_upd k (fun _ => m_info mq') (kids (m_parent mq) (g_quotas st)))) ->
+  (forall c, c_total (push c) = c_total c) ->
+  minv (upd_calc (m_parent mq) push (set_quota k mq' st)).
+Proof.
+  intros Hi Hf Hpar Hw Htot.
+  apply (replace_inv st _ k mq mq' (push (get_calc (m_parent mq) st))); try assumption.
+  - cbn. apply (aset_live k mq' mq), Hf.
+  - reflexivity.
+  - intro p. rewrite get_calc_upd, get_calc_set_quota. reflexivity.
+  - apply Htot.
+Qed.
+
+(* only the stamps of quota k change (RefreshRuntime) *)
+Lemma set_quota_inv st k mq mq' :
+  minv st -> afind k (g_quotas st) = Some mq -> m_parent mq' = m_parent mq ->
+  calc_inv (mkW (get_calc (m_parent mq) st)
+                (tab_upd k (fun _ => m_info mq') (kids (m_parent mq) (g_quotas st)))) ->
+  minv (set_quota k mq' st).
+Proof.
+  intros Hi Hf Hpar Hw.
+  apply (replace_inv st _ k mq mq' (get_calc (m_parent mq) st)); try assumption; try reflexivity.
+  - cbn. apply (aset_live k mq' mq), Hf.
+  - intro p. rewrite get_calc_set_quota. destruct (m_parent mq =? p) eqn:E; [|reflexivity].
+    apply Z.eqb_eq in E. subst p. reflexivity.
+Qed.
+
+(* only calculator p changes *)
+Lemma calc_only_inv st st' p C :
+  minv st -> g_quotas st' = g_quotas st ->
+  (forall p', get_calc p' st' = if p =? p' then C else get_calc p' st) ->
+  calc_inv (mkW C (kids p (g_quotas st))) ->
+  c_total (get_calc 0 st') = g_total st' ->
+  minv st'.
+Proof.
+  intros Hi Hq Hc Hw Ht. constructor.
+  - rewrite Hq. apply (mi_nodup st Hi).
+  - intro p'. unfold wld. rewrite Hq, Hc. destruct (p =? p') eqn:E.
+    + apply Z.eqb_eq in E. subst p'. exact Hw.
+    + apply (mi_worlds st Hi p').
+  - rewrite Hq. apply (mi_parents st Hi).
+  - rewrite Hq. apply (mi_noroot st Hi).
+  - exact Ht.
 Qed.
 
 (* what a Calc_Model op on child k does to the world of its parent *)
@@ -176,13 +221,13 @@ Proof.
     assert (Hc : updateOneGroupMinQuota k q' (get_calc (m_parent mq) st)
                  = updateOneGroupMinQuota k (q_set_min v q) (get_calc (m_parent mq) st)).
     { unfold updateOneGroupMinQuota. f_equal. cbn [q' q_set_req q_min].
-      apply upsert_live. rewrite (inv_tree _ Hw). cbn [wld w_tab]. rewrite t_mem_abs, Hk. reflexivity. }
+      apply upsert_live. pose proof (inv_tree _ Hw) as Ht0. cbn [wld w_calc w_tab] in Ht0.
+      rewrite Ht0, t_mem_abs, Hk. reflexivity. }
     rewrite Hc.
     assert (Ht : tab_upd k (fun _ => q') (kids (m_parent mq) (g_quotas st))
                  = tab_upd k (q_set_req r) (tab_upd k (fun _ => q_set_min v q) (kids (m_parent mq) (g_quotas st)))).
     { unfold tab_upd. rewrite map_map. apply map_ext. intro p.
-      destruct (fst p =? k) eqn:E; cbn [fst snd]; rewrite ?E; [|reflexivity].
-      apply Z.eqb_eq in E. rewrite Z.eqb_refl. reflexivity. }
+      destruct (fst p =? k) eqn:E; cbn [fst snd]; rewrite ?E; reflexivity. }
     rewrite Ht. exact H2.
   - intro c. rewrite push_request_total. reflexivity.
 Qed.
